@@ -41,11 +41,64 @@ def gen_cases(gb, rng, tier):
                     continue        # the 1-byte input is only a complete message for structs (contract of the unchecked reader)
                 cases.append(dict(line=genrun.case_line('dflt', cfg, tname, proto), want=want, cfg=cfg, type=tname, proto=proto,
                                   mode='sync', kind=d['kind'], empty_must_fail=need_err, nontrivial=n_defaults(sch, tname) > 0))
+            if d['kind'] == 'struct':
+                # the emitted decode_async on the empty struct (the `dflt` line runs the sync decoder): every protocol, the
+                # schedules in turn
+                for k, proto in enumerate(genrun.ASYNC_PROTOS):
+                    mode = 'async:' + genrun.SCHEDULES[(len(cases) + k) % len(genrun.SCHEDULES)]
+                    cases.append(dict(line=genrun.case_line('dec', cfg, tname, proto, mode, b'\x00'), want=want, cfg=cfg, type=tname,
+                                      proto=proto, mode=mode, kind=d['kind'], empty_must_fail=need_err, op='empty_async',
+                                      nontrivial=n_defaults(sch, tname) > 0))
     return cases
 
 
+def evaluate_empty_async(gb, case, out):
+    ty = ('ref', case['type'])
+    cls = 'keep-is-arg-swallow' if genrun.is_arg_swallow(gb.schema, case['cfg'], case['type'], 'async') else None
+    e = genrun.Res(out)
+    if e.kind == 'ok':
+        ev, why = genrun.value_text(gb, case['cfg'], ty, e.debug)
+        if why:
+            return [(why, cls)]
+        bad = []
+        if case['empty_must_fail']:
+            bad.append(('decode_async(empty struct) succeeds although a required field has no default', cls))
+        elif ev != case['want']:
+            bad.append(('decode_async(empty struct) is not the IDL default (%s)' % genrun.diff_text(ev, case['want']), cls))
+        if e.rem != 0:
+            bad.append(('decode_async(empty struct) leaves %d bytes' % e.rem, cls))
+        return bad
+    if e.kind == 'err':
+        if not case['empty_must_fail']:
+            return [('decode_async(empty struct) fails (%s) although every required field has a default' % e.line[:120], cls)]
+        return []
+    return [('decode_async(empty struct): %s' % e.line[:80], cls)]
+
+
+def add_document(gb, case):
+    # the replay names the corpus document the type comes from and carries its IDL text
+    d = gb.schema.docs.get(case['type'].split('.')[0])
+    if d is not None and 'document' not in case:
+        case['document'] = dict(name=d.name, idl=gengen.doc_idl(d))
+
+
+def with_document(gb, failing):
+    for f in failing:
+        add_document(gb, f[0])
+    return failing
+
+
 def evaluate(gb, case, out):
+    bad = evaluate0(gb, case, out)
+    if bad:
+        add_document(gb, case)
+    return bad
+
+
+def evaluate0(gb, case, out):
     sch = gb.schema
+    if case.get('op') == 'empty_async':
+        return evaluate_empty_async(gb, case, out)
     tname, cfg, proto = case['type'], case['cfg'], case['proto']
     ty = ('ref', tname)
     m = DFLT_RE.match(out or '')
@@ -272,6 +325,46 @@ def literal_phase(chk, gb, cases, outs, stats):
     return failing
 
 
+def pair_phase(gb, cases, outs, stats):
+    """the two ends of one call: <Service><Method>ArgsSend and ...ArgsRecv have the same fields and the same IDL defaults, so
+    their Default values are the same value and encode to the same fields (compared after reference decoding).
+    -> oracle failures [(case, why, cls, impl line)]"""
+    sch = gb.schema
+    by = {}
+    for c, o in zip(cases, outs):
+        d = sch.types.get(c['type'])
+        if c.get('op') == 'empty_async' or d is None or not d.get('synth') or d['synth'][2] not in ('ArgsSend', 'ArgsRecv'):
+            continue
+        by.setdefault((c['cfg'], c['proto'], d['synth'][0], d['synth'][1]), {})[d['synth'][2]] = (c, o or '')
+    failing = []
+    stats['send_recv_pairs'] = 0
+    for key, pr in sorted(by.items()):
+        if len(pr) != 2:
+            continue
+        (cs, os_), (cr, or_) = pr['ArgsSend'], pr['ArgsRecv']
+        ms, mr = DFLT_RE.match(os_), DFLT_RE.match(or_)
+        if not ms or not mr:
+            continue
+        stats['send_recv_pairs'] += 1
+        vs, _ = genrun.value_text(gb, cs['cfg'], ('ref', cs['type']), ms.group(1))
+        vr, _ = genrun.value_text(gb, cr['cfg'], ('ref', cr['type']), mr.group(1))
+        if vs is not None and vr is not None and vs != vr:
+            failing.append((dict(cr, companions=[cs]), 'the two argument structs of %s.%s disagree: ArgsSend::default() vs ArgsRecv::default() (%s)'
+                            % (key[2], key[3], genrun.diff_text(vr, vs)), None, or_))
+            continue
+        if ms.group(4) and mr.group(4):
+            try:
+                a = genref.decode(sch, ('ref', cs['type']), bytes.fromhex(ms.group(4).replace('-', '')), genrun.ref_proto(cs['proto']))[0]
+                b = genref.decode(sch, ('ref', cr['type']), bytes.fromhex(mr.group(4).replace('-', '')), genrun.ref_proto(cr['proto']))[0]
+                ta, tb = gengen.show(sch, ('ref', cs['type']), a), gengen.show(sch, ('ref', cr['type']), b)
+            except Exception:
+                continue        # reported by evaluate
+            if ta != tb:
+                failing.append((dict(cr, companions=[cs]), 'encode(ArgsSend::default()) and encode(ArgsRecv::default()) of %s.%s differ (%s)'
+                                % (key[2], key[3], genrun.diff_text(tb, ta)), None, or_))
+    return failing
+
+
 def repair_phase(chk, gb, stats):
     """-> correspondence disagreements; known findings are reported through chk.violation(cls=..)"""
     import subprocess, tempfile
@@ -328,13 +421,16 @@ def repair_phase(chk, gb, stats):
 def run(chk, replay=None):
     stats = {}
     return run_check(chk, replay, PROP, gen_cases, evaluate,
-                     post=lambda gb, cases, outs: literal_phase(chk, gb, cases, outs, stats),
+                     post=lambda gb, cases, outs: with_document(gb, pair_phase(gb, cases, outs, stats) + literal_phase(chk, gb, cases, outs, stats)),
                      rule="every emitted type (structs incl. synthesised service types, unions, enums, typedefs) of the corpus "
                           "(document dflt: defaults of every kind of the property text -- ints, bool from int, double from int, "
                           "decimal/exponent doubles, strings in both quote styles with escapes, binary, enum by name and by number, "
                           "const references incl. across files, list/set/map literals incl. [] for a map, nested struct literals, "
-                          "typedef'd targets, btree containers; x required/optional/default requiredness) x {binary, binary_le, "
-                          "compact, unchecked} x builder configs; non-trivial = the struct has at least one IDL default",
+                          "typedef'd targets, btree containers; x required/optional/default requiredness; documents sdef / sdefs: the "
+                          "same kinds written in the ARGUMENT lists of service methods, on exceptions and result types -- both "
+                          "<Service><Method>ArgsSend and ArgsRecv, compared with the IDL and with each other) x {binary, binary_le, "
+                          "compact, unchecked} x builder configs, plus decode_async of the empty struct x {binary, binary_le, compact} "
+                          "x schedules; non-trivial = the struct has at least one IDL default",
                      extra_dist=lambda cases, outs: dict(structs_with_defaults=len(set(c['type'] for c in cases if c['nontrivial'])),
                                                          default_fields=sum(1 for c in cases if c['nontrivial']),
                                                          literal_level=dict(stats)))
